@@ -42,6 +42,24 @@ def run(tier, seed):
     import glue_struct
     obs += glue_struct.par_obligations("C19")
     obs += vl.run_lemmas("C19", ["merge_tree", "concat", "tree_equals"])
+    # The reduction "under A-RAYON the statement is C02 + C11 + C14 through the merge-tree lemma" is only as good as its
+    # premises on the CURRENT tree: a merge that loses a non-empty left operand when the right one is empty (rayon folds
+    # produce empty accumulators whenever a filter sits upstream) breaks parallel collection and nothing else in the wiring.
+    # The premises are therefore re-established here, under their own names prefixed with `C19.premise.`.
+    confirms = {}
+    for mod_name in ("c02", "c11", "c14"):
+        import importlib
+        m = importlib.import_module(mod_name)
+        try:
+            p_obs, _p_meta, p_confirm = m.run(tier, seed)
+        except Undecided as ex:
+            from common import Obligation, UNDECIDED
+            obs.append(Obligation("C19.premise.%s" % mod_name.upper(), "premise of the reduction", "premise", UNDECIDED, 0.0, str(ex)))
+            continue
+        for o in p_obs:
+            o.name = "C19.premise." + o.name
+            confirms[o.name] = p_confirm
+        obs += p_obs
     meta = {
         "level": "other",
         "checker_cmd": "cargo kani --features std,rayon with rayon replaced by contracts/rayon_stub (specification stub); verus history.rs",
@@ -53,9 +71,14 @@ def run(tier, seed):
         "assumptions": ["NOT decided: real threads, work stealing, thread counts, data races (Kani has no threads; Verus would need its permission types throughout rayon); data-race freedom is what forbid(unsafe_code) plus rayon's Send bounds give and is trusted",
                         "bounded: " + BOUND + " - listed under `bounded`, never counted as proved",
                         "under A-RAYON the statement reduces to C02 + C11 + C14 through the merge-tree lemma with empty leaves: every chunking and bracketing, hence every thread count, split granularity and steal order",
-                        "define_moments! types: instantiated for N = 4 (the wiring does not depend on N)"],
+                        "define_moments! types: instantiated for N = 4 (the wiring does not depend on N)",
+                        "the premises C02 (merge = concatenation), C11 (empty estimator is an exact identity of merge) and C14 (Min/Max) are re-run by this check on the "
+                        "current tree and reported as C19.premise.* obligations with the assumptions of their own checks (A-REAL for C02)"],
         "explanation": "Wiring of impl_from_par_iterator! (identity = new, fold = add, reduce = merge in order, both f64 and &f64) against an executable "
                        "specification of rayon's fold/reduce: every item is absorbed exactly once for every split and bracketing (multiset recorder), Min/Max exact. "
                        "Bounded in the number of items/chunks; the unbounded claim over chunkings is the Verus lemma plus C02/C11/C14.",
     }
-    return obs, meta, None
+    def confirm(ob):
+        f = confirms.get(ob.name)
+        return f(ob) if f else None
+    return obs, meta, confirm
